@@ -442,6 +442,12 @@ Definition call_native (name : string) (vs : list value) : M value :=
     end
   else if String.eqb name "math.gcd" then
     match gcd_ints vs 0%Z with Some z => ret (PInt z) | None => raise "TypeError" "" end
+  else if String.eqb name "c14_run.peek" then
+    (* a live view of the context held by a context value: lambda k: context.get(k) *)
+    match vs with
+    | [PStr k] => fun s => (Ok (match ns_get k (ctx s) with Some v => v | None => PNone end), s)
+    | _ => unsup
+    end
   else if String.eqb name "<builtins>" then raise "TypeError" ""
   else unsup.
 
